@@ -140,6 +140,8 @@ def free(t): return {"sub": "spans", "case": {"input": {"Free": ["en", t]}}}
 add("F130", "C17", "fixed", "'şğü 5' reported Number (4, 8) in a 5-character line: the end of a token at the end of the line was a byte offset", free("şğü 5"), commit="e281d10")
 add("F131", "C17", "fixed", "'5 € + 3 €': the collision test compared byte offsets with character offsets, tokens after multi-byte characters were dropped or overlapped", free("5 € + 3 €"), commit="e281d10")
 add("F132", "C17", "fixed", "'ŞŞŞ 12 may' reported Month (7, 13): month and zone lexers took offsets from a case-mapped copy of the line", free("ŞŞŞ 12 may\nİ İ 1 january 1\nıııı 15:00 EST"), commit="4cf889b")
+add("F133", "C17", "fixed", "'0b1001%' reported Number(0,1) Symbol2(1,2) Number(2,6) Symbol2(6,7) and evaluated to 0: the percent lexer matched the digits inside a based literal (the literal is not one Number token)",
+    {"sub": "based-literal-in-context", "case": {"lit": {"n": 9, "base": 2, "frac": None, "prefix_upper": False, "digit_case": 0, "pad": 0}, "before": 0, "after": 7, "gap": 0}}, commit="b5d2666")
 add("F120b", "C17", "fixed", "'5 # jan 2020': overlapping Month and Comment tokens", free("5 # jan 2020"), commit="46657ee")
 
 # ---- C15 -------------------------------------------------------------------------------------
